@@ -16,7 +16,7 @@ COMMON_ASSUMPTIONS = [
 INSN_TRUSTED = ['iced-x86 decoder: bridged natively (witness bytes -> fields -> rebuilt Instruction == decoded Instruction), not executed by the solver', 'reference semantics /verif/harness/x86ref.rs (written from the Intel SDM; spot-checked against the host CPU for SHL count 0 / CMOVcc r32)', 'stubs: collect_mem_error_hints -> fixed error; Display/Debug of iced Instruction/Code/Mnemonic/Register/OpKind -> Ok(())']
 
 INSN_BOUNDS = ("one handler call (mnemonic_<m>) per implemented form x shape from a fully symbolic machine: all 16 GPRs + RIP (2^64 each), "
-               "rflags (all 64 bits), fs, gs, 2 XMM registers symbolic (others distinct constants) where the form names one, immediates / "
+               "rflags (bits 0..=21 arbitrary; the reserved-zero bits 22..=63 are zero), fs, gs, 2 XMM registers symbolic (others distinct constants) where the form names one, immediates / "
                "displacement / branch target symbolic over everything the encoding can carry; memory forms: one area D of 32 symbolic bytes at "
                "0x40000000 with an arbitrary 3-bit permission mask, address = symbolic base register + symbolic disp8 (inside, straddling, outside D). "
                "Shapes: quick = mod=11 register shape (8- and 64-bit widths of each operand pattern) + [base+disp8] shape (widest width); thorough "
